@@ -455,6 +455,27 @@ def extra_cases(tier):
                     op('extra/block_jacobi/empty-range', amg_core.block_jacobi, Bp, Bj, Bx, x.copy(), b, dinv, np.zeros(n), *rb, om, bs)
     yield 'extra/empty-sweep-ranges', sweeps
 
+    def empty_index_sets():
+        # the indexed kernels with an EMPTY index set (an all-C or all-F level) and with a single index
+        A = sp.csr_array(gal.poisson((3, 2), format='csr'))
+        n = A.shape[0]
+        Ap, Aj, Ax = A.indptr.astype(I), A.indices.astype(I), A.data.copy()
+        x, b = np.arange(1.0, n + 1), np.ones(n)
+        om = np.array([0.7])
+        for idx in (np.zeros(0, dtype=I), np.array([2], dtype=I)):
+            op('extra/jacobi_indexed/index-set-of-%d' % len(idx), amg_core.jacobi_indexed, Ap, Aj, Ax, x.copy(), b, idx, om)
+            for step in (1, -1):
+                r3 = (0, len(idx), 1) if step == 1 else (len(idx) - 1, -1, -1)
+                op('extra/gauss_seidel_indexed/index-set-of-%d' % len(idx), amg_core.gauss_seidel_indexed, Ap, Aj, Ax, x.copy(), b, idx, *r3)
+            for bs in (1, 2, 3):
+                Ab = sp.bsr_array(A, blocksize=(bs, bs))
+                Bp, Bj, Bx = Ab.indptr.astype(I), Ab.indices.astype(I), np.ravel(Ab.data).copy()
+                nb = n // bs
+                dinv = np.tile(np.eye(bs).ravel(), nb)
+                ib = idx[idx < nb]
+                op('extra/block_jacobi_indexed/index-set-of-%d' % len(ib), amg_core.block_jacobi_indexed, Bp, Bj, Bx, x.copy(), b, dinv, ib, om, bs)
+    yield 'extra/empty-index-sets', empty_index_sets
+
     def rect_blocks():
         # filter_operator / satisfy_constraints on BSR matrices with r x c blocks and K candidates, c > K, c == K, c < K
         rs = np.random.RandomState(3)
